@@ -41,3 +41,4 @@ Q("getb-explicit-none", "base.py", "    lb, ub = old_bound_to_new(bounds)\n",
 # ---- GETB (round 4): the converted vectors are rewritten afterwards
 M("getb-huge-means-infinite", "base.py", "    lb, ub = old_bound_to_new(bounds)\n", "    lb, ub = old_bound_to_new(bounds)\n    ub = np.where(ub >= 1e20, np.inf, ub)\n", ["GETB"])
 Q("getb-astype", "base.py", "    lb, ub = old_bound_to_new(bounds)\n", "    lb, ub = old_bound_to_new(bounds)\n    lb = lb.astype(float)\n", ["GETB"])
+M("box-clip2bounds-swapped", "base.py", "    return np.clip(x0.T, lb, ub).T\n", "    return np.clip(x0.T, ub, lb).T\n", ["BOX"])
